@@ -349,10 +349,10 @@ def execute(prop, plan, tier, seed, expinfo, t_start):
 
         def _dl(job):
             lm, g = job
-            st, model, dt, out = L.run_solver('z3-nlsat', lm.query(g), 120 if tier == 'quick' else 300, workdir,
-                                              '%s.%s' % (lm.name, 'all' if g is None else g))
+            st, model, dt, out, who = L.run_portfolio(lm.query(g), 120 if tier == 'quick' else 300, workdir,
+                                                      '%s.%s' % (lm.name, 'all' if g is None else g))
             return (lm, g, st, model, dt, out)
-        with ThreadPoolExecutor(max_workers=14) as ex:
+        with ThreadPoolExecutor(max_workers=6) as ex:
             lres = list(ex.map(_dl, jobs))
         with ThreadPoolExecutor(max_workers=14) as ex:
             vres2 = list(ex.map(lambda lm: (lm, L.vacuity(lm, workdir)), plan.lemmas))
@@ -375,7 +375,7 @@ def execute(prop, plan, tier, seed, expinfo, t_start):
                 undecided.append('lemma %s goal %s: %s after %.0fs' % (lm.name, g, st, dt))
         samples += [dict(obligation='%s/L.%s' % (prop, lm.name), backend='z3-nlsat',
                          statement=(lm.doc or '')[:200]) for lm in plan.lemmas[:3]]
-        checker_cmds.append('%s -smt2 <lemma>.smt2  (QF_NRA, one query per conclusion conjunct)' % L.Z3_VERUS)
+        checker_cmds.append('z3 portfolio on <lemma>.smt2 (QF_NRA, one query per conclusion conjunct): ' + ' | '.join(n for n, _c, _t in L.PORTFOLIO))
         if tier == 'thorough':
             # re-check with independent solvers, best effort
             def _rc(job):
